@@ -13,6 +13,9 @@ use std::sync::Arc;
 /// set by the binary: reads the global live-bytes counter of the tracking allocator
 pub static LIVE_FN: std::sync::OnceLock<fn() -> i64> = std::sync::OnceLock::new();
 fn live() -> i64 { LIVE_FN.get().map(|f| f()).unwrap_or(0) }
+/// set by the binary: emits a marker system call (visible to strace) when marks are switched on
+pub static MARK_FN: std::sync::OnceLock<fn(core::fmt::Arguments)> = std::sync::OnceLock::new();
+fn mark(a: core::fmt::Arguments) { if let Some(f) = MARK_FN.get() { f(a) } }
 
 fn maps() -> Vec<(usize, usize)> {
     let s = std::fs::read_to_string("/proc/self/maps").unwrap_or_default();
@@ -38,6 +41,7 @@ pub static CANARY_DROPS: AtomicI64 = AtomicI64::new(0);
 pub struct Canary<A: Peek> { pub id: u64, pub data: A }
 impl<A: Peek> Drop for Canary<A> {
     fn drop(&mut self) {
+        mark(format_args!("sdrop"));
         CANARY_SEEN.store(self.data.peek(), SeqCst);
         CANARY_DROPS.fetch_add(1, SeqCst);
     }
@@ -167,6 +171,7 @@ fn exercise<S: Loaded + Send + Sync + 'static>(mc: MemCase<S>, ops: &[&str], o: 
         let mc = cur.take().unwrap();
         match *op {
             "move" => {
+                mark(format_args!("op:move"));
                 let mut v = vec![mc];
                 let mc = v.pop().unwrap();
                 let mc = std::hint::black_box(mc);
@@ -175,32 +180,37 @@ fn exercise<S: Loaded + Send + Sync + 'static>(mc: MemCase<S>, ops: &[&str], o: 
                 cur = Some(mc);
             }
             "box" => {
+                mark(format_args!("op:box"));
                 let b = Box::new(mc);
                 o.dig(b.digest());
                 o.all_inside &= inside(&b);
+                mark(format_args!("op:unbox"));
                 cur = Some(*b);
             }
             "send" => {
-                let h = std::thread::spawn(move || { let d = mc.digest(); (mc, d) });
+                let h = std::thread::spawn(move || { mark(format_args!("op:send")); let d = mc.digest(); (mc, d) });
                 let (mc, d) = h.join().unwrap();
+                mark(format_args!("op:back"));
                 o.dig(d);
                 o.all_inside &= inside(&mc);
                 cur = Some(mc);
             }
             "arc2" => {
+                mark(format_args!("op:arc"));
                 let a = Arc::new(mc);
                 let hs: Vec<_> = (0..2).map(|i| {
                     let a = a.clone();
-                    std::thread::spawn(move || { for _ in 0..i { std::thread::yield_now(); } let mut d = 0; for _ in 0..50 { d = a.digest(); std::thread::yield_now(); } d })
+                    std::thread::spawn(move || { for _ in 0..i { std::thread::yield_now(); } mark(format_args!("op:enter")); let mut d = 0; for _ in 0..50 { d = a.digest(); std::thread::yield_now(); } mark(format_args!("op:leave")); drop(a); d })
                 }).collect();
                 let here = a.digest();
                 for h in hs { o.dig(h.join().unwrap()); }
                 o.dig(here);
                 cur = Arc::try_unwrap(a).ok();
                 if cur.is_none() { return None; }
+                mark(format_args!("op:unarc"));
             }
             "dropthread" => {
-                let h = std::thread::spawn(move || { drop(mc); });
+                let h = std::thread::spawn(move || { mark(format_args!("op:send")); drop(mc); });
                 h.join().unwrap();
                 o.consumed = true;
                 return None;
@@ -214,6 +224,7 @@ fn exercise<S: Loaded + Send + Sync + 'static>(mc: MemCase<S>, ops: &[&str], o: 
 fn observe_case<S: Loaded + Send + Sync + 'static>(
     res: anyhow::Result<MemCase<S>>, file_len: usize, ops: &[&str], expect_digest: u64, o: &mut Obs,
 ) {
+    mark(format_args!("loaded:{}", match &res { Ok(_) => "ok", Err(e) => err_name(e) }));
     o.heap1 = live();
     o.maps1 = nmaps() as i64;
     match res {
@@ -234,21 +245,24 @@ fn observe_case<S: Loaded + Send + Sync + 'static>(
             CANARY_SEEN.store(0, SeqCst);
             let rest = exercise(mc, ops, o);
             drop(rest);
+            mark(format_args!("dropped"));
             o.region_mapped_after_drop = region_addr != 0 && mapped(region_addr);
         }
-        Err(e) => { o.res = err_name(&e); }
+        Err(e) => { o.res = err_name(&e); drop(e); mark(format_args!("dropped")); }
     }
     o.heap2 = live();
     o.maps2 = nmaps() as i64;
 }
 
 fn observe_full<T: Loaded>(res: anyhow::Result<T>, expect_digest: u64, o: &mut Obs) {
+    mark(format_args!("loaded:{}", match &res { Ok(_) => "ok", Err(e) => err_name(e) }));
     o.heap1 = live();
     o.maps1 = nmaps() as i64;
     match res {
         Ok(v) => { o.res = "ok"; o.digest_ok = v.digest() == expect_digest; o.all_inside = true; drop(v); }
         Err(e) => { o.res = err_name(&e); }
     }
+    mark(format_args!("dropped"));
     o.heap2 = live();
     o.maps2 = nmaps() as i64;
 }
@@ -268,6 +282,7 @@ fn make_file(dir: &std::path::Path, ty: &str, n: usize, cause: &str, cut: i64, p
     let digest;
     let mut store_err = None;
     let other = cause == "wrongtype";
+    mark(format_args!("store"));
     match ty {
         "vec64" => { digest = (&v64[..]).digest(); if other { store_err = v8.store(&path).err(); } else { store_err = v64.store(&path).err(); } }
         "vec8" => { digest = (&v8[..]).digest(); if other { store_err = v64.store(&path).err(); } else { store_err = v8.store(&path).err(); } }
@@ -295,6 +310,7 @@ fn make_file(dir: &std::path::Path, ty: &str, n: usize, cause: &str, cut: i64, p
     }
     if let Some(e) = store_err { panic!("store failed: {e:?}"); }
     let mut bytes = std::fs::read(&path).unwrap();
+    mark(format_args!("stored:{}", bytes.len()));
     match cause {
         "corrupt" => { bytes[3] ^= 0x40; std::fs::write(&path, &bytes).unwrap(); }
         // cut >= 0: keep `cut` bytes; cut < 0: drop `-cut` bytes from the end (a cut inside the payload)
@@ -333,6 +349,7 @@ pub fn run_case(case: &Value, dir: &std::path::Path) -> Value {
     let flags = case["flags"].as_u64().unwrap_or(0);
     let ops_owned: Vec<String> = case["ops"].as_array().map(|a| a.iter().map(|x| x.as_str().unwrap().to_string()).collect()).unwrap_or_default();
     let ops: Vec<&str> = ops_owned.iter().map(|s| s.as_str()).collect();
+    mark(format_args!("case:{}", case["i"].as_u64().unwrap_or(0)));
     let (path, file_len, digest) = make_file(dir, ty, n, cause, cut, prior);
     let mut store_exact = true;
     if cause == "valid" {
@@ -353,6 +370,7 @@ pub fn run_case(case: &Value, dir: &std::path::Path) -> Value {
     let path_ref = &path;
     let heap0 = live();
     let maps0 = nmaps() as i64;
+    mark(format_args!("load"));
     let r = catch_unwind(AssertUnwindSafe(|| {
         let o = &mut o;
         match (loader, ty) {
@@ -371,8 +389,10 @@ pub fn run_case(case: &Value, dir: &std::path::Path) -> Value {
             (_, "lay") => observe_case(run_loader!(Lay, loader, flags, path_ref), file_len, &ops, digest, o),
             (_, "big128") => {
                 let res = run_loader!(Big128, loader, flags, path_ref);
+                mark(format_args!("loaded:{}", match &res { Ok(_) => "ok", Err(e) => err_name(e) }));
                 o.heap1 = live(); o.maps1 = nmaps() as i64;
                 match res { Ok(mc) => { o.res = "ok"; big_res128 = (*mc) as *const Big128 as usize % 128; o.digest_ok = true; drop(mc); } Err(e) => o.res = err_name(&e) }
+                mark(format_args!("dropped"));
                 o.heap2 = live(); o.maps2 = nmaps() as i64;
             }
             _ => { o.res = "unknown-type"; }
@@ -383,6 +403,8 @@ pub fn run_case(case: &Value, dir: &std::path::Path) -> Value {
     let did_panic = r.is_err();
     drop(r);
     if did_panic {
+        mark(format_args!("loaded:panic"));
+        mark(format_args!("dropped"));
         o.heap1 = live(); o.maps1 = nmaps() as i64;
         o.heap2 = o.heap1; o.maps2 = o.maps1;
     }
